@@ -5,6 +5,7 @@ from facts import Facts, strip_cvref, parse_type
 from rules_core import backend_of, is_backend
 from effects import Effects, leaf_class, ACTIVE_MEMBERS, FLAG_MEMBER
 from rules_rtc import const_of, active_index, member_chain
+from model import Model
 
 def tokens_on_paths(f, classify, edge_bound=1):
     """list of token sequences, one per non-aborting CFG path"""
@@ -354,3 +355,292 @@ def kind(F, R):
             R.ob('C02.kind', not is_machine, {'func': f.q, 'call': n['n'], 'receiver': Facts.short(t, 100)})
             if is_machine:
                 R.find('C02.kind', f, 'plain-%s-on-composite' % n['n'], '%s resolves to the front-end behaviour of a composite state (%s): its substates are not %s' % (n['n'], Facts.short(t, 120), 'exited' if n['n'] == 'on_exit' else 'entered'), where=f.at(i))
+
+# ------------------------------------------------------------------ C11 gate, C12 catch
+
+def cond_facts(f, blk, succ_block):
+    """atomic (node, truth) facts implied by leaving blk towards succ_block"""
+    out = []
+    tc = blk.get('tc')
+    if not tc or len(blk['s']) != 2 or succ_block not in blk['s'] or blk.get('tcv') is not None: return out
+    truth = blk['s'].index(succ_block) == 0
+    def unc(c):
+        while c and c['k'] in ('icast', 'cast'): c = f.nodes[c['e']]
+        return c
+    def implied(c, t):
+        c = unc(c)
+        if not c: return
+        if c['k'] == 'un' and c['op'] == '!': implied(f.nodes[c['e']], not t)
+        elif c['k'] == 'bin' and c['op'] == '&&' and t: implied(f.nodes[c['lhs']], True); implied(f.nodes[c['rhs']], True)
+        elif c['k'] == 'bin' and c['op'] == '||' and not t: implied(f.nodes[c['lhs']], False); implied(f.nodes[c['rhs']], False)
+        else: out.append((c, t))
+    implied(f.nodes[tc], truth)
+    if blk.get('tk') in ('IfStmt', 'WhileStmt', 'ForStmt', 'DoStmt'):
+        c = unc(f.nodes[tc])
+        while c and c['k'] == 'bin' and c['op'] in ('&&', '||'): c = unc(f.nodes[c['rhs']])
+        implied(c, truth)
+    return out
+
+def path_consistent(f, p):
+    """False when the path takes contradictory outcomes for two tests of the same condition over unmodified parameters /
+    constants (e.g. `info != event_pool` tested twice)"""
+    from rules_order import dependency_closure
+    seen = {}
+    for bi, b in enumerate(p[:-1]):
+        for c, t in cond_facts(f, f.bmap[b], p[bi + 1]):
+            # only conditions whose leaves are parameters, enumerators or literals
+            ok = True
+            cid = None
+            for i, n in enumerate(f.nodes):
+                if n is c: cid = i; break
+            if cid is None: continue
+            for d in dependency_closure(f, cid):
+                m = f.nodes[d]
+                if m and m['k'] == 'ref' and m.get('dk') not in ('param', 'enum'): ok = False
+                if m and m['k'] in ('call', 'mem'): ok = False
+            if not ok: continue
+            key = f.expr(cid)
+            if key in seen and seen[key] != t: return False
+            seen[key] = t
+    return True
+
+def gate_kind(F, n):
+    if n['k'] != 'call': return None
+    nm = n.get('n')
+    if nm == 'is_event_handling_blocked_helper': return 'helper'
+    if nm == 'is_end_interrupt_event': return 'endint'
+    if nm == 'is_flag_active':
+        ta = F.targs(n.get('ta')) or []
+        t = str(ta[0]) if ta else ''
+        if 'TerminateFlag' in t: return 'terminate'
+        if 'EndInterruptFlag' in t: return 'endint'
+        if 'InterruptedFlag' in t: return 'interrupted'
+    return None
+
+@rule('gate')
+def gate(F, R):
+    from rules_rtc import queue_ops
+    M = Model(F)
+    E = Effects(F)
+    for f in F.funcs:
+        if not is_backend(f) or not f.blocks: continue
+        be = backend_of(f)
+        if f.cls in ('state_machine', 'state_machine_base') and f.n in ('process_event_internal', 'process_completion_transition'):
+            mt = F.class_type(f)
+            m = M.machine_of(mt)
+            blocking = None
+            if m is not None and M.rows(m.fe) is not None:
+                blocking = False
+                for s in M.states(m.fe):
+                    fl = ' '.join(M.internal_flags(s))
+                    if 'TerminateFlag' in fl or 'InterruptedFlag' in fl: blocking = True
+            qnodes = {i for i, q, op in queue_ops(f)}
+            def eff(i, n):
+                if n['k'] == 'asg':
+                    l = f.nodes[n['lhs']]
+                    if f.base_member(n['lhs']) or (l and l['k'] == 'mem'): return True
+                if n['k'] == 'call':
+                    if gate_kind(F, n): return False
+                    if i in qnodes: return True
+                    if n.get('n') in ('do_pre_msg_queue_helper', 'defer_event', 'do_process_helper', 'do_process_event', 'execute', 'process_event_pool'): return True
+                    if E.call_classes(f, n) & {'GUARD', 'EXIT', 'ACTION', 'ENTRY', 'NO_TRANSITION', 'EXCEPTION_CAUGHT', 'PROCESS', 'DEFER', 'W_FLAG'}: return True
+                if n['k'] == 'mem' and n.get('n') == FLAG_MEMBER: return True
+                return False
+            R.seen(f)
+            ok = True; why = ''
+            gates_seen = set()
+            for p in f.paths(edge_bound=1):
+                if f.aborts(p): continue
+                facts_ = []; blocked = False; first_eff = None; gates_before = set()
+                for bi, b in enumerate(p):
+                    blk = f.bmap[b]
+                    for i in blk['e']:
+                        n = f.nodes[i]
+                        if not n: continue
+                        g = gate_kind(F, n)
+                        if g:
+                            gates_seen.add(g)
+                            if first_eff is None: gates_before.add(g)
+                        if eff(i, n):
+                            if first_eff is None: first_eff = i
+                            if blocked: ok = False; why = 'after the blocking test says "blocked" the path still performs %s at %s' % (f.expr(i)[:60], f.at(i))
+                    if bi + 1 < len(p):
+                        for c, t in cond_facts(f, blk, p[bi + 1]):
+                            g = gate_kind(F, c) if c['k'] == 'call' else None
+                            if g: facts_.append((g, t))
+                        d = dict(facts_)
+                        if d.get('helper') is True or d.get('terminate') is True or (d.get('interrupted') is True and (d.get('endint') is False or f.n == 'process_completion_transition')):
+                            blocked = True
+                if blocking and first_eff is not None:
+                    need = {'helper'} if be != 'backmp11' else ({'terminate', 'interrupted'})
+                    if not need <= gates_before:
+                        ok = False; why = 'a path reaches %s at %s without the blocking test(s) %s first' % (f.expr(first_eff)[:60], f.at(first_eff), sorted(need - gates_before))
+            if blocking:
+                R.anchor('gate-blocking:%s:%s' % (be, f.n))
+                if be == 'backmp11':
+                    need_all = {'terminate', 'interrupted', 'endint'} if f.n == 'process_event_internal' else {'terminate', 'interrupted'}
+                    if not need_all <= gates_seen:
+                        ok = False; why = 'blocking test consults %s, required %s' % (sorted(gates_seen), sorted(need_all))
+                if be != 'backmp11':
+                    # the helper overload chosen must be the real one (tag true_)
+                    for i, n in f.calls():
+                        if n.get('n') == 'is_event_handling_blocked_helper':
+                            g = F.bykey.get(n['fk'])
+                            if g is not None and not any(gate_kind(F, x) for _, x in g.calls()):
+                                ok = False; why = 'machine has terminate / interrupt states but the no-op blocking helper is selected'
+            elif blocking is False:
+                R.anchor('gate-nonblocking:%s:%s' % (be, f.n))
+            R.ob('C11.gate', ok, {'func': f.q, 'machine_has_blocking_states': blocking, 'gate_tests': sorted(gates_seen)})
+            if not ok: R.find('C11.gate', f, 'gate', why)
+        # the helper itself (back / back11)
+        if f.n == 'is_event_handling_blocked_helper' and f.cls == 'state_machine':
+            kinds = [gate_kind(F, n) for i, n in f.calls()]
+            kinds = [k for k in kinds if k]
+            if not kinds: continue
+            R.seen(f); R.anchor('gate-helper:' + be)
+            # returns true iff terminate, or interrupted and not end-interrupt
+            ok = True; why = ''
+            for p in f.paths(edge_bound=1):
+                d = {}
+                for bi, b in enumerate(p[:-1]):
+                    for c, t in cond_facts(f, f.bmap[b], p[bi + 1]):
+                        g = gate_kind(F, c) if c['k'] == 'call' else None
+                        if g: d[g] = t
+                rv = None
+                for i in f.path_nodes(p):
+                    n = f.nodes[i]
+                    if n and n['k'] == 'ret': rv = f.eval_const(n['e'])
+                expect = None
+                if d.get('terminate') is True: expect = 1
+                elif d.get('interrupted') is True and d.get('endint') is False: expect = 1
+                elif d.get('terminate') is False and (d.get('interrupted') is False or d.get('endint') is True): expect = 0
+                if expect is not None and rv != expect:
+                    ok = False; why = 'blocking helper returns %s on the path with %s' % (rv, d)
+            if sorted(set(kinds)) != ['endint', 'interrupted', 'terminate']: ok = False; why = 'blocking helper consults %s' % sorted(set(kinds))
+            # C11.type: the end-interrupt flag is looked up for the decayed event type
+            ta = f.targs() or []
+            ev = str(ta[0]) if ta else ''
+            okt = ev == strip_cvref(ev)
+            for i, n in f.calls():
+                if gate_kind(F, n) == 'endint':
+                    fl = str((F.targs(n.get('ta')) or [''])[0])
+                    inner = parse_type(fl)[1]
+                    if inner and inner[0] != strip_cvref(inner[0]): okt = False
+            R.ob('C11.gate', ok, {'func': f.q, 'consults': sorted(set(kinds))})
+            if not ok: R.find('C11.gate', f, 'helper', why)
+            R.ob('C11.type', okt, {'func': f.q, 'event': Facts.short(ev, 60)})
+            if not okt: R.find('C11.type', f, 'event-type', 'blocking helper instantiated with the non-decayed event type %s: EndInterruptFlag<%s> never matches the declared end-interrupt event' % (Facts.short(ev, 60), Facts.short(ev, 60)))
+
+@rule('catch')
+def catch(F, R):
+    """C12.catch: the dispatch of an event runs inside a try whose std::exception handler calls exception_caught exactly once
+    with the event being processed, never no_transition, and yields HANDLED_FALSE."""
+    E = Effects(F)
+    for f in F.funcs:
+        if not is_backend(f) or not f.blocks: continue
+        be = backend_of(f)
+        if f.cls not in ('state_machine', 'state_machine_base'): continue
+        if f.n not in ('do_process_helper', 'process_event_internal', 'process_completion_transition'): continue
+        disp = [(i, n) for i, n in f.calls() if n.get('n') in ('do_process_event',) or (f.n == 'process_completion_transition' and n.get('n') == 'execute')]
+        if not disp: continue
+        tries = f.d.get('tries', [])
+        R.seen(f); R.anchor('dispatch-site:%s:%s' % (be, f.n))
+        if not tries:
+            R.anchor('dispatch-no-try:%s:%s' % (be, f.n))
+            # allowed only in the no-exception configuration: back: the overload tagged true_; backmp11: front-end typedef
+            noexc = False
+            if be != 'backmp11':
+                noexc = any('bool_<true>' in F.strs[p['t']] for p in f.d['params'])
+            else:
+                m = Model(F).machine_of(F.class_type(f))
+                noexc = bool(m and m.fe_rec and 'no_exception_thrown' in m.fe_rec['tds'])
+            R.ob('C12.catch', noexc, {'func': f.q, 'no_exception_configuration': noexc})
+            if not noexc: R.find('C12.catch', f, 'no-try', 'the event is dispatched outside any try block although exceptions are not configured off')
+            continue
+        R.anchor('dispatch-try:%s:%s' % (be, f.n))
+        t = tries[0]
+        inside = all(i in t['nodes'] for i, n in disp)
+        ht = [F.strs[h['t']] for h in t['handlers']]
+        ok = inside and any('std::exception' in x for x in ht)
+        why = '' if ok else 'dispatch inside try=%s, handler types %s' % (inside, ht)
+        if ok:
+            hb = [h['b'] for h in t['handlers'] if 'std::exception' in F.strs[h['t']]][0]
+            # nodes of the handler: blocks reachable from hb until the join with normal flow (approx: blocks dominated by hb = reachable from hb and not from the try body without passing hb)
+            seen = set(); st = [hb]
+            normal = set()
+            stn = [f.entry]
+            while stn:
+                b = stn.pop()
+                if b in normal or b == hb: continue
+                normal.add(b); stn.extend(f.succ(b, handlers=False))
+            while st:
+                b = st.pop()
+                if b in seen or (b in normal and b != hb): continue
+                seen.add(b); st.extend(f.succ(b, handlers=False))
+            hn = [i for b in seen for i in f.bmap[b]['e']]
+            ec = [i for i in hn if f.nodes[i] and f.nodes[i]['k'] == 'call' and leaf_class(F, f.nodes[i]) == 'EXCEPTION_CAUGHT']
+            nt = [i for i in hn if f.nodes[i] and f.nodes[i]['k'] == 'call' and 'NO_TRANSITION' in E.call_classes(f, f.nodes[i])]
+            if len(ec) != 1: ok = False; why = 'handler calls exception_caught %d times' % len(ec)
+            elif nt: ok = False; why = 'handler reaches no_transition'
+            else:
+                a0 = f.nodes[f.nodes[ec[0]]['args'][0]] if f.nodes[ec[0]]['args'] else None
+                while a0 and a0['k'] in ('icast', 'cast'): a0 = f.nodes[a0['e']]
+                evname = f.d['params'][0]['n'] if f.d['params'] and f.n != 'process_completion_transition' else 'event'
+                if not (a0 and a0['k'] == 'ref' and a0['n'] == evname): ok = False; why = 'exception_caught is not given the event being processed (%s)' % (f.expr(f.nodes[ec[0]]['args'][0]) if f.nodes[ec[0]]['args'] else '?')
+            if ok:
+                # result after the handler is HANDLED_FALSE: return of the enumerator, assignment, or untouched initial value
+                res_ok = False
+                for i in hn:
+                    n = f.nodes[i]
+                    if n and n['k'] == 'ret' and 'HANDLED_FALSE' in f.expr(n['e']): res_ok = True
+                    if n and n['k'] == 'asg' and 'HANDLED_FALSE' in f.expr(n['rhs']): res_ok = True
+                if not res_ok:
+                    for n in f.nodes:
+                        if n and n['k'] == 'decl':
+                            for v in n['vars']:
+                                if v['n'] == 'result' and v['hasinit'] and 'HANDLED_FALSE' in f.expr(v['init']):
+                                    # must not be assigned anything else inside the handler (checked above) 
+                                    res_ok = True
+                if not res_ok: ok = False; why = 'the handler does not yield HANDLED_FALSE'
+        R.ob('C12.catch', ok, {'func': f.q, 'handlers': ht})
+        if not ok: R.find('C12.catch', f, 'catch-shape', why)
+
+@rule('drain')
+def drain(F, R):
+    """C10.first / C04.drain: after the dispatch of an event the machine lets completion transitions fire first and then drains
+    its pending events: back / back11 process_event_internal = dispatch < clear flag < completion < deferred/message queues on every
+    path; backmp11 = dispatch < clear flag < process_event_pool on every path except the one taken for info == event_pool."""
+    for f in F.funcs:
+        if not is_backend(f) or not f.blocks or f.n != 'process_event_internal' or f.cls not in ('state_machine', 'state_machine_base'): continue
+        be = backend_of(f)
+        R.seen(f); R.anchor('post-step:' + be)
+        ok = True; why = ''
+        for p in f.paths(edge_bound=1):
+            if f.aborts(p) or not path_consistent(f, p): continue
+            seq = []; pool_case = False
+            for bi, b in enumerate(p):
+                blk = f.bmap[b]
+                for i in blk['e']:
+                    n = f.nodes[i]
+                    if not n or n['k'] != 'call': continue
+                    nm = n.get('n')
+                    if nm in ('do_process_helper', 'do_process_event'): seq.append('D')
+                    elif nm == 'process_completion_event': seq.append('K')
+                    elif nm == 'do_handle_prio_msg_queue_deferred_queue': seq.append('Q')
+                    elif nm == 'process_event_pool': seq.append('P')
+                if bi + 1 < len(p):
+                    for c, t in cond_facts(f, blk, p[bi + 1]):
+                        if c['k'] == 'bin' and c['op'] in ('==', '!='):
+                            l = f.nodes[c['lhs']]; r = f.nodes[c['rhs']]
+                            if l and r and l.get('n') == 'info' and r.get('n') == 'event_pool' and ((c['op'] == '==') == t): pool_case = True
+            if 'D' not in seq: continue
+            if be != 'backmp11':
+                if seq != ['D', 'K', 'Q']: ok = False; why = 'after the dispatch the path runs %s, required completion then queues' % seq
+            else:
+                m_has_pool = any(f.nodes[i] and f.nodes[i]['k'] == 'call' and f.nodes[i].get('n') == 'process_event_pool' for i in range(len(f.nodes)))
+                if m_has_pool and not pool_case and seq != ['D', 'P']:
+                    ok = False; why = 'a dispatch not coming from the event pool is not followed by process_event_pool (sequence %s): completion transitions and pending events of this machine are not run' % seq
+                if pool_case and 'P' in seq:
+                    ok = False; why = 'process_event_pool re-entered while already draining the pool'
+        R.ob('C10.first', ok, {'func': f.q})
+        if not ok: R.find('C10.first', f, 'post-step', why)
